@@ -337,7 +337,7 @@ def strip(x):
 def fmt(e, depth=0):
     if not isinstance(e, tuple) or not e:
         return str(e)
-    if depth > 8:
+    if depth > 40:
         return "..."
     k = e[0]
     if k == "param":
